@@ -136,6 +136,7 @@ structure Hist where
   leak : Nat := 0
   own : List Nat := []
   share : List (Nat × String) := []
+  bodyLeaks : List (Nat × String × Nat) := []
   finalKeys : Option (List Str) := none
   frames : List (Nat × Nat × String × Header) := []   -- (exchange, call, cl | chunked | close, trailer section sent)
   trailers : List (Nat × Header) := []                 -- trailer fields the caller saw after reading the body
@@ -208,6 +209,7 @@ def parseLine (h : Hist) (line : String) : Hist :=
     { h with ress := e :: h.ress }
   | ["O", "REQCMP", n, v] => { h with reqcmp := h.reqcmp ++ [(toNat n, v == "same")] }
   | ["O", "LEAK", n] => { h with leak := toNat n }
+  | ["O", "BODYLEAK", n, stream, k] => { h with bodyLeaks := h.bodyLeaks ++ [(toNat n, stream, toNat k)] }
   | ["O", "OWN", n, "changed", _] => { h with own := toNat n :: h.own }
   | ["I", "FRAME", n, k, fr, tr] => { h with frames := (toNat n, toNat k, fr, parseHdrs tr) :: h.frames }
   | ["O", "TRAILER", n, tr] => { h with trailers := (toNat n, parseHdrs tr) :: h.trailers }
